@@ -141,6 +141,38 @@ fn main() {
         judge(rep, &format!("generated with a {size}-byte payload at {at}"), &m, &bytes, "large payload");
     });
 
+    // long method bodies: a generated method stretched with no-operand instructions to 32 760 .. 65 000 bytes, so that short-form branches,
+    // exception ranges, line numbers and local variable ranges sit at bytecode offsets around and beyond 32 767 (i16 / u16 arithmetic on offsets)
+    let nlong = ctx.tier.pick(120, 4_000);
+    run_cases(&ctx, &replay, &mut rep, "long-code", nlong, |rng, rep, _| {
+        let small = gen::GenCfg { max_fields: 1, max_methods: 2, max_insns: 14, ..gen::GenCfg::default() };
+        let mut m = gen::gen_class(rng, &small);
+        let Some(mi) = (0..m.methods.len()).find(|i| m.methods[*i].code.as_ref().is_some_and(|c| !c.insns.iter().any(|x| matches!(x, Insn::TableSwitch { .. } | Insn::LookupSwitch { .. })))) else { rep.count("long_code.no_method_to_stretch"); return; };
+        let code = m.methods[mi].code.as_mut().unwrap();
+        // padding in front (branches then sit in the upper half) or in the middle (a branch across it is refused by the emitter: skipped)
+        let pad = *rng.pick(&[32_750usize, 32_760, 32_766, 32_767, 32_768, 32_770, 40_000, 60_000]);
+        let at = if rng.chance(3, 4) { 0 } else { rng.below(code.insns.len()) };
+        let shift = |p: &mut Pos| { if (*p as usize) >= at { *p += pad as Pos; } };
+        for x in code.insns.iter_mut() { match x { Insn::Branch(_, t) => shift(t), Insn::TableSwitch { default, targets, .. } => { shift(default); for t in targets { shift(t); } } Insn::LookupSwitch { default, pairs } => { shift(default); for (_, t) in pairs { shift(t); } } _ => {} } }
+        for e in code.exceptions.iter_mut() { shift(&mut e.start); shift(&mut e.end); shift(&mut e.handler); }
+        if let Some(l) = &mut code.line_numbers { for (p, _) in l { shift(p); } }
+        for tab in [&mut code.lvt, &mut code.lvtt] { if let Some(t) = tab { for v in t { shift(&mut v.start); shift(&mut v.end); } } }
+        if let Some(f) = &mut code.frames { for fr in f.iter_mut() { shift(&mut fr.at); let k = &mut fr.kind; let fix = |v: &mut VType| if let VType::Uninit(p) = v { shift(p) }; match k { FrameKind::SameLocals1(v) => fix(v), FrameKind::Append(l) => l.iter_mut().for_each(fix), FrameKind::Full { locals, stack } => { locals.iter_mut().for_each(fix); stack.iter_mut().for_each(fix); } _ => {} } } }
+        // type annotations with code positions are dropped rather than shifted (their targets are judged by the other workloads)
+        code.vis_type_annotations.clear(); code.invis_type_annotations.clear();
+        let filler: Vec<Insn> = (0..pad).map(|_| Insn::Op(0)).collect();
+        code.insns.splice(at..at, filler);
+        let layout = if rng.bool() { emit::Layout::canonical() } else { emit::Layout::random(rng.next_u64()) };
+        let Ok(bytes) = emit::emit(&m, &layout) else { rep.count("long_code.not_emittable (a short branch would cross the padding, or over 65535 bytes)"); return; };
+        match parse::parse(&bytes) { Ok(p) if p == m => {}, other => { eprintln!("HARNESS-ERROR parse(emit(M)) != M for a long method: {:?}", other.err()); std::process::exit(3); } }
+        rep.eval(); rep.count("long_code.classes");
+        let c = m.methods[mi].code.as_ref().unwrap();
+        if c.insns.iter().any(|x| matches!(x, Insn::Branch(..))) { rep.count("long_code.with_branch_beyond_32767"); }
+        if !c.exceptions.is_empty() { rep.count("long_code.with_exception_range_beyond_32767"); }
+        rep.nontrivial(common::rng::fnv_str(&format!("long {pad} {at} {}", c.insns.len() - pad)));
+        judge(rep, &format!("generated, one method stretched by {pad} bytes at instruction {at}"), &m, &bytes, "long code");
+    });
+
     // boundary counts: one table grown to 255 / 256 / 32767 / 32768 / 65535 entries
     let nbig = ctx.tier.pick(200, 6_000);
     run_cases(&ctx, &replay, &mut rep, "big-table", nbig, |rng, rep, _| {
